@@ -45,6 +45,7 @@ class Knobs:
         self.float_grid_safe = True
         self.p_hooked = 0.0
         self.p_placeholder = 0.0
+        self.p_regex_unsup = 0.0
 
 
 # ------------------------------------------------------------------ generation (witness-first)
@@ -208,6 +209,9 @@ def _gen_str(r, k, depth):
             lst = list(alpha)
             r.shuffle(lst)
             alpha = "".join(lst)
+        if alpha and r.random() < 0.25:
+            # duplicate letters are legal in an alphabet (they only change the odds)
+            alpha = alpha + "".join(r.choice(alpha) for _ in range(r.randint(1, 4)))
         s["alphabet"] = alpha
         rest.append("alphabet")
     if r.random() < k.p_constraint * 0.7:
@@ -233,7 +237,7 @@ def _gen_str(r, k, depth):
 
 def _gen_str_regex(r, k):
     cfg = G.Cfg(r, depth=r.choice((1, 2, 3)), budget=r.choice((8, 32, 128)), p_neg=r.choice((0.0, 0.3)),
-                size=r.choice((1, 2, 3)), max_repeat=32)
+                size=r.choice((1, 2, 3)), max_repeat=32, p_unsup=k.p_regex_unsup)
     import re
     for _ in range(8):
         ast = G.gen_pattern(cfg)
@@ -242,6 +246,9 @@ def _gen_str_regex(r, k):
             re.compile(pat)
         except Exception:
             continue
+        if G.has_unsupported(ast):
+            # only where a raising fake() is part of the history under test (C07, C17)
+            return {"t": "str", "regex": {"pattern": pat, "ast": ast}, "order": ["regex"]}, "x"
         w = G.sample_min(ast)
         if w is None:
             continue
@@ -286,8 +293,13 @@ def _gen_date(r, k, depth):
     return s, w
 
 
+NIL_UUID = UUID(int=0)
+V1_UUID = UUID("c232ab00-9414-11ec-b3c8-9f68deced846")
+
+
 def _filler(r):
-    return r.choice((None, 0, 1, "f", [], {}, 2.5, True, [1], {"k": 1}))
+    return r.choice((None, 0, 1, "f", [], {}, 2.5, True, [1], {"k": 1}, 1.0, 0.0, -0.0, False, b"b",
+                     NIL_UUID, V1_UUID, UUID(int=5, version=4), date(2020, 2, 29), datetime(2020, 2, 29, 1, 2, 3)))
 
 
 def _len_for_typed(r, k, n):
